@@ -355,6 +355,9 @@ class Engine:
         if ck:
             m = M.find_method(ck, name)
             if m and m.kind == "property":
+                if m.qual in M.memo_reach:
+                    # cached_property (or a property that reads one): the read may fill the per-instance cache -- a state change of the object, at the point of the read
+                    p.effects.append(("memo", base, name, getattr(node, "lineno", 0) if node is not None else 0))
                 if name in self.keep_props or fr["depth"] >= self.depth or (base != ("self0",) and not self.inline_sub):
                     return ("prop", base, name, self.version(base, p))
                 r = self.inline_pure(m, base, [], p, fr)
@@ -1047,6 +1050,15 @@ class Engine:
             if self.track_exc:
                 for a in e.args[1:] + ([e.args[0]] if e.args and not isinstance(e.args[0], ast.Constant) else []):
                     self.ev(a, p, fr)  # logging arguments are evaluated code: their exception sites count (the message too when it is built eagerly)
+            elif self.M.has_memo:
+                # without exception tracking the arguments matter only when evaluating them can fill a cached_property
+                q = p.clone()
+                try:
+                    for a in e.args[1:]:
+                        self.ev(a, q, fr)
+                    p.effects.extend(x for x in q.effects[len(p.effects):] if x[0] == "memo")
+                except (Unsupported, NeedFork):
+                    pass
             p.effects.append(("log", tuple(ast.unparse(a) for a in e.args[1:]), e.lineno))
             return [(p, ("c", None))]
         args = [self.ev(a, p, fr) for a in e.args] + [("kw", k.arg, self.ev(k.value, p, fr)) for k in e.keywords if k.arg]
